@@ -284,6 +284,34 @@ class PrevOracle:
                     return "stg repair dropped patches: %r" % sorted(before - after)
                 if set(pst["hidden"]) - set(st["hidden"]) - set(st["applied"]):
                     return "stg repair un-hid a patch that is not applied"
+                # "repair on a consistent stack changes nothing but the log": head = top (or the
+                # base with nothing applied) and every applied patch sits on the one below
+                def first_parent(o):
+                    f = real.r.git(["rev-list", "--parents", "-n", "1", o]).stdout.split()
+                    return f[1] if len(f) > 1 else None
+                aoids = [pst["patches"][n]["oid"] for n in pst["applied"]]
+                consistent = (pst.get("head") == prev["branch"]
+                              and (not aoids or aoids[-1] == prev["branch"])
+                              and all(first_parent(b) == a for a, b in zip(aoids, aoids[1:])))
+                if consistent:
+                    # ... and no unapplied or hidden patch's commit lies on the first-parent path that
+                    # repair walks (down to the first merge or the root): after `stg rebase <patch
+                    # commit>` or `git reset` onto one, repair rightly makes such patches applied
+                    walked = set()
+                    for o in real.r.git(["rev-list", "--first-parent", "--parents", prev["branch"]]).stdout.split("\n"):
+                        f = o.split()
+                        if len(f) != 2:
+                            break
+                        walked.add(f[0])
+                    consistent = not any(pst["patches"][n]["oid"] in walked and pst["patches"][n]["oid"] not in aoids
+                                         for n in pst["unapplied"] + pst["hidden"])
+                if consistent:
+                    for k in ("applied", "unapplied", "hidden"):
+                        if st[k] != pst[k]:
+                            return ("stg repair on a consistent stack changed the %s patches: %r -> %r"
+                                    % (k, pst[k], st[k]))
+                    if {n: v["oid"] for n, v in st["patches"].items()} != {n: v["oid"] for n, v in pst["patches"].items()}:
+                        return "stg repair on a consistent stack changed a patch's commit"
                 path = real.r.git(["rev-list", "--first-parent", snap["branch"]]).stdout.split()
                 stop = len(path)
                 for k, o in enumerate(path):
@@ -291,6 +319,14 @@ class PrevOracle:
                         stop = k                  # a merge (or the root): repair does not look below it
                         break
                 on_path = set(path[:stop])
+                # a patch that was applied and whose commit is still on the path stays applied (two
+                # patches may share one commit object: the applied one is the one repair must find)
+                demoted = [n for n in pst["applied"] if n in st["patches"] and n not in st["applied"]
+                           and pst["patches"][n]["oid"] in on_path
+                           and st["patches"][n]["oid"] == pst["patches"][n]["oid"]]
+                if demoted:
+                    return ("stg repair made %r unapplied although they were applied and their commits are still "
+                            "on the first-parent path of the branch" % demoted)
                 left = [n for n in st["unapplied"] + st["hidden"] if st["patches"][n]["oid"] in on_path]
                 base_like = [n for n in left]
                 if left and not st["applied"]:
@@ -304,6 +340,21 @@ class PrevOracle:
                         missed = [n for n in left if path.index(st["patches"][n]["oid"]) < low]
                         if missed:
                             return "stg repair left %r unapplied although their commits are above applied patches on the branch" % missed
+        if c.get("rt") == "begin":
+            self.rt = prev if ex == 0 else None
+        if c.get("rt") == "end":
+            rt, self.rt = getattr(self, "rt", None), None
+            if rt is not None and ex == 0:
+                # C12_commit_uncommit_roundtrip, read off the real repository
+                for k in ("applied", "unapplied", "hidden"):
+                    if st[k] != rt["st"][k]:
+                        return "commit -n k; uncommit <same names> changed the %s patches: %r -> %r" % (k, rt["st"][k], st[k])
+                if {n: v["oid"] for n, v in st["patches"].items()} != {n: v["oid"] for n, v in rt["st"]["patches"].items()}:
+                    return "commit -n k; uncommit <same names> did not give every patch the commit it had"
+                if cur["branch"] != rt["branch"] or cur["wt"] != rt["wt"] or cur["status"] != rt["status"]:
+                    return "commit -n k; uncommit <same names> changed the branch head, index or work tree"
+            elif rt is not None and ex != 0:
+                return "uncommit of the patches just committed, under their own names, failed (exit %r)" % ex
         if c["c"] == "uncommit":
             if cur["branch"] != prev["branch"] or cur["wt"] != prev["wt"] or cur["status"] != prev["status"]:
                 return "stg uncommit changed the branch head, index or work tree"
